@@ -13,7 +13,7 @@ import (
 func init() {
 	register("C08", &ruleSet{
 		run:    runC08,
-		floors: map[string]int{"O1": 2, "O2": 1, "O3": 2},
+		floors: map[string]int{"O1": 2, "O2": 1, "O3": 2, "O4": 3, "O5": 3},
 		explain: "Decides necessary sign conditions of 'more latency never means more limit' for Vegas and Gradient (Gradient2 is declined: its long-term average also absorbs the " +
 			"sample, so the quotient long/short has mixed polarity syntactically; threshold ordering, rounding, probe and baseline-lowering samples are excluded): (O1) polarity: " +
 			"the control signal is monotone in the sample RTT in the right direction - Vegas's queue estimate is non-decreasing in rtt, and on every Gradient path the stored " +
@@ -172,6 +172,37 @@ func runC08(p *Prog, l *Ledger) {
 	l.Rule("O3", "rtt influences control flow only through recognised monotone idioms (baseline test, dominated guard, self-guarded smoothing, control-signal thresholds, effect-free diamonds)")
 	l.NotCovered = []string{"Gradient2 (mixed syntactic polarity of long/short RTT)", "numeric ordering of the thresholds threshold <= alpha <= beta and of the step sizes", "probe and baseline-lowering samples (excluded by the property)", "rounding"}
 	l.Assume("measurement values (baselines, RTT averages) are >= 0 and are not changed by the sample under comparison (the property's proviso)")
+	l.Rule("O4", "what the monotonicity argument takes as given is established by the code: every stored estimate of the delay-based algorithms stays within its bounds (the C04/O1 rules on the same tree: a floor applied on one branch only makes a slower sample land higher)")
+	l.Rule("O5", "the smoothing factor is within [0,1]: every constructor stores a value proved >= 0 and <= 1 and nothing rewrites it (a negative weight reverses the direction of the update)")
+	importObligations(p, l, "C04", "O4", func(o *Obligation) bool {
+		return o.Rule == "O1" && (strings.Contains(o.Key, "VegasLimit") || strings.Contains(o.Key, "GradientLimit") || strings.Contains(o.Key, "Gradient2Limit"))
+	})
+	smoothSeen := map[string]bool{}
+	for _, af := range algoFuncs(p, l) {
+		name := af.A.T.Obj().Name()
+		if name != "VegasLimit" && name != "GradientLimit" && name != "Gradient2Limit" {
+			continue
+		}
+		// the smoothing field by role: f in "1 - f" inside the update
+		allInstrs(af.Fn, func(ins ssa.Instruction) {
+			bo, ok := ins.(*ssa.BinOp)
+			if !ok || bo.Op != token.SUB {
+				return
+			}
+			if k, isC := constFloat(strip(bo.X, false)); !isC || k != 1 {
+				return
+			}
+			fr, _, ok := loadedField(strip(bo.Y, false))
+			if !ok || fr.Type == nil || !types.Identical(fr.Type, af.A.T) || smoothSeen[p.FieldKey(fr)] {
+				return
+			}
+			smoothSeen[p.FieldKey(fr)] = true
+			lo := p.ImmutableFieldBound(fr, 0, false)
+			hi := p.ImmutableFieldBound(fr, 1, true)
+			l.Check(lo && hi, "O5", p.FieldKey(fr), p.At(ins), "every constructor stores a smoothing factor proved within [0,1]; no other writer",
+				fmt.Sprintf("the smoothing factor is not proved within [0,1] (>= 0: %v, <= 1: %v): with a weight outside that range more latency can mean more limit", lo, hi))
+		})
+	}
 
 	for _, af := range algoFuncs(p, l) {
 		name := af.A.T.Obj().Name()
